@@ -2,6 +2,7 @@ package mp4
 
 import (
 	"encoding/binary"
+	"fmt"
 	"io"
 
 	"github.com/Eyevinn/mp4ff/bits"
@@ -72,6 +73,9 @@ func DecodeFtyp(hdr BoxHeader, startPos uint64, r io.Reader) (Box, error) {
 
 // DecodeFtypSR - box-specific decode
 func DecodeFtypSR(hdr BoxHeader, startPos uint64, sr bits.SliceReader) (Box, error) {
+	if hdr.payloadLen() < 8 {
+		return nil, fmt.Errorf("ftyp: payload of %d bytes is too short for major brand and minor version", hdr.payloadLen())
+	}
 	return &FtypBox{data: sr.ReadBytes(hdr.payloadLen())}, sr.AccError()
 }
 
